@@ -120,7 +120,9 @@ class IrregularlyBin(Factory, Container):
         if value is None:
             self.bins = tuple(edges)
         else:
-            self.bins = tuple((float(x), value.zero()) for x in (float("-inf"),) + tuple(edges))
+            # ordered edges, as CentrallyBin orders its centers: out of order the intervals overlap
+            # (fill took the first match, fill.numpy every match)
+            self.bins = tuple((float(x), value.zero()) for x in (float("-inf"),) + tuple(sorted(edges)))
         self.nanflow = nanflow.copy()
         super().__init__()
         self.specialize()
